@@ -489,6 +489,7 @@ def insertSchemaRows : List FieldDef → Bytes → Nat → SM Unit
 def createTable (fields : List FieldDef) (name : Bytes) (flushOrder : List Nat) : SM Unit := fun s =>
   match relationOffset name s with
   | .err .tableNotExist s1 =>
+    if fields.any (fun fd => fd.len > 2147483647 || fd.len < -2147483648) then .err .intOutOfRange s1 else
     (do
       let pgOff ← appendNode (.leaf ⟨0, 0, false, false, 0, 0, []⟩) true
       insertPageTable pgOff name
